@@ -603,8 +603,10 @@ fn piece(rng: &mut Rng, which: usize) -> Vec<u8> {
         13 => s.extend(format!("\x1bP{}+r{:02x}{:02x}={:02x}\x1b\\", rng.below(2), 0x41 + rng.below(26), 0x41 + rng.below(26), 0x20 + rng.below(90)).into_bytes()),
         14 => s.extend(format!("\x1b[8;{};{}t\x1b[4;{};{}t", num(rng), num(rng), num(rng), num(rng)).into_bytes()),
         15 => {
+            // bracketed paste; sometimes longer than the decoder's inline buffer (SmallVec<[u8; 32]>)
             s.extend(b"\x1b[200~");
-            for _ in 0..rng.below(6) {
+            let k = if rng.chance(1, 3) { 30 + rng.below(40) } else { rng.below(6) };
+            for _ in 0..k {
                 s.extend(utf8_char(rng));
             }
             s.extend(b"\x1b[201~");
@@ -750,7 +752,7 @@ pub fn generate(rng: &mut Rng, n: usize, tier: &str) -> Vec<Value> {
             }
             11..=17 => {
                 let which = if rng.chance(1, 4) { 1 } else { 0 };
-                let s = stream(rng, which, 60);
+                let s = stream(rng, which, 160);
                 let parts = some_parts(rng, s.len());
                 v.push(json!({"kind":"prod","which":which,"input":jbytes(&s),"parts":parts}));
             }
